@@ -448,6 +448,17 @@ func checkC04(c *core.Ctx) {
 		traces = append(traces, &Trace{Events: run.Events, Class: "random", Name: fmt.Sprintf("random#%d", i),
 			Scenario: map[string]any{"scenario": sc, "seed": c.Seed*977 + int64(i)}})
 	}
+	// identity re-use: a new actor under the name of a dead asker, a late answer to the dead one's request
+	for i := 0; i < core.Pick(c, 2, 8); i++ {
+		ev, err := runReincarnation(c.Seed + int64(i))
+		if err != nil {
+			c.Broken("reincarnation scenario: %v", err)
+			return
+		}
+		c.Add("evaluations", 1)
+		traces = append(traces, &Trace{Events: ev, Class: "asker-name-reused", Name: fmt.Sprintf("reincarnation#%d", i),
+			Scenario: map[string]any{"what": "actor 'asker' asks and dies, a new 'asker' asks again, the first answer arrives late and before the second"}})
+	}
 	// ungated: real goroutines, thousands of futures
 	nStress := core.Pick(c, 20000, 200000)
 	st, _, err := runPipeStress(c.Seed, nStress, 3)
